@@ -6,7 +6,8 @@ from ..elections import base_cfg
 
 PID = "C02"
 MC = {"quick": [dict(family="stv", max_ballots=2, max_w=1)],
-      "thorough": [dict(family="stv", max_ballots=2, max_w=2, with_half=True), dict(family="droop", max_ballots=3, max_w=2)]}
+      "thorough": [dict(family="stv", max_ballots=2, max_w=2, with_half=True), dict(family="droop", max_ballots=3, max_w=2),
+                   dict(family="droop", cands=["A", "B", "C", "D"], max_ballots=2, max_w=1)]}
 
 
 def stv_config(rng, nc, rules=("STV", "STV", "STV", "SequentialRCV", "IRV")):
